@@ -407,6 +407,214 @@ def run_reassign(ctx, chosen_wm):
     return n
 
 
+# ------------------------------------------------------------------ Live part (in-place edits of parameters read at evaluation time)
+LIVE_MODS = ["DiffOps.tla"]
+_LIVE_CANON = ("E:logpdf.edit:slice.E:logpdf", "E:gradient.edit:slice.E:gradient", "E:logpdf.edit:items.E:gradient",
+               "E:gradient.edit:iadd.E:logpdf", "E:logpdf.edit:argbuf.E:logpdf")
+
+
+def live_walk_tag(ops):
+    return ".".join(("E:" + o["obs"]) if o["op"] == "evaluate" else ("edit:" + o["how"]) if o["op"] == "edit" else ("set:" + o["what"])
+                    for o in ops)
+
+
+def _live_expected_grad(fam, E, D):
+    par = _q(E["par"])
+    Dr = np.array(E["Dr"], dtype=float)
+    if fam == "GMRF":
+        return -par * (D.T @ Dr)
+    return (-2 * Dr / (Dr ** 2 + par ** 2)) @ D          # CMRF: derivative of sum log(s / (pi (s^2 + (D r)_i^2)))
+
+
+def _live_reported(dist, name, versions):
+    """which version (1 | 2) does the public getter report now?  0: neither"""
+    v = np.asarray(getattr(dist, name), dtype=float).ravel()
+    for k, arr in versions.items():
+        full = np.asarray(arr, dtype=float).ravel()
+        if v.size in (1, full.size) and np.array_equal(np.broadcast_to(v, full.shape) if v.size == 1 else v, full):
+            return k
+    return 0
+
+
+def live_walk(ctx, case, ops, real, pair, real_bc, real_order, stats):
+    """one behaviour of DiffOpsLive!LvWalk on one real GMRF / LMRF / CMRF object; the Live parameter (mean / location) takes the
+    locations pair[0] (version 1) and pair[1] (version 2) of the configuration, the other parameter LvPar(1) / LvPar(2)."""
+    import cuqi, io, contextlib
+    fam, n, pd = case["fam"], case["n"], case["pd"]
+    dim = n if pd == 1 else n * n
+    D, P = _arr(case["D"], dim), _arr(case["P"], dim)
+    x = np.array(case["x"], dtype=float)
+    locname, parname = ("mean", "prec") if fam == "GMRF" else ("location", "scale")
+    facts = case["facts"]
+    vers = {v: np.array(facts[pair[v - 1] - 1][0]["loc"], dtype=float) for v in (1, 2)}
+
+    def container(v):
+        a = vers[v]
+        return float(a[0]) if real == "scalar" else a.tolist() if real == "list" else a.copy()
+    geom = cuqi.geometry.Continuous1D(n) if pd == 1 else cuqi.geometry.Image2D((n, n))
+    kw = {"order": real_order} if fam == "GMRF" else {}
+    arg = container(1)
+    try:
+        with contextlib.redirect_stdout(io.StringIO()):
+            dist = getattr(cuqi.distribution, fam)(arg, _q(facts[0][0]["par"]), bc_type=real_bc, geometry=geom, **kw)
+    except Exception as e:
+        ctx.observations.setdefault("live_construct_refused", {})["%s/%s" % (fam, real_bc)] = repr(e)[:100]
+        return False
+    rep, oth = 1, 1
+    tag = live_walk_tag(ops)
+    key = "pd=%d/n=%d/bc=%s/order=%d" % (pd, n, real_bc, real_order)
+    base = "%s/real=%s/loc=%d>%d/walk=%s" % (key, real, pair[0], pair[1], tag)
+    carry = {"kind": "livewalk", "case": case, "ops": ops, "real": real, "pair": list(pair), "real_bc": real_bc, "real_order": real_order}
+    for k, o in enumerate(ops):
+        if o["op"] == "edit":
+            new, old = vers[3 - rep], vers[rep]
+            how = o["how"]
+            try:
+                if how == "argbuf":
+                    if isinstance(arg, np.ndarray):
+                        arg[:] = new
+                    elif isinstance(arg, list):
+                        arg[:] = new.tolist()
+                    else:
+                        return False                      # a python float cannot be edited in place: not a behaviour of this realisation
+                else:
+                    a = getattr(dist, locname)            # the array the public getter hands out
+                    if how == "slice":
+                        a[:] = new[:len(a)]
+                    elif how == "items":
+                        for i in range(len(a)):
+                            a[i] = new[i]
+                    else:
+                        a += (new - old)[:len(a)]
+            except Exception as e:                        # the getter hands out something that cannot be edited: nothing happened
+                stats["edit_refused"] = stats.get("edit_refused", 0) + 1
+                ctx.observations.setdefault("live_edit_refused_example", "%s.%s %s: %r" % (fam, locname, how, e))
+                return False
+            now = _live_reported(dist, locname, vers)
+            if now == 0:
+                ctx.mismatch("live/%s_getter/%s/at=%d" % (fam.lower(), base, k + 1), carry,
+                             "after an in-place edit the public getter reports neither the old nor the new value", new, getattr(dist, locname))
+                return False
+            key_ = ("edit_reported:" + fam) if now != rep else ("edit_not_reported:" + ("argbuf:" + real if how == "argbuf" else how + ":" + fam))
+            stats[key_] = stats.get(key_, 0) + 1
+            rep = now
+            continue
+        if o["op"] == "assign":
+            try:
+                with contextlib.redirect_stdout(io.StringIO()):
+                    if o["what"] == "live":
+                        arg = container(3 - rep)
+                        setattr(dist, locname, arg)
+                        rep = 3 - rep
+                    else:
+                        setattr(dist, parname, _q(facts[0][2 - oth]["par"]))
+                        oth = 3 - oth
+            except Exception as e:
+                ob = ctx.observations.setdefault("live_assign_refused", {})
+                ob["%s.%s" % (fam, o["what"])] = ob.get("%s.%s" % (fam, o["what"]), 0) + 1
+                return False
+            continue
+        # evaluate: the expectation is that of the versions the getters report NOW
+        E = facts[pair[rep - 1] - 1][oth - 1]
+        rc = {"rank": case["rank"]}
+        exp = _re_expected(rc, E, fam, P, D)
+        obs = o["obs"] if not (fam == "LMRF" and o["obs"] == "gradient") else "pdf"
+        sig = "live/%s_%s/%s/at=%d" % (fam.lower(), obs, base, k + 1)
+        ctx.case(("live", fam, base, k), facet="live/%s/%s" % (fam, obs))
+        tol = 1e-9 if (fam != "GMRF" or real_bc == "zero") else 1e-6
+        what = ("%s.%s is not the documented quantity of D (x - %s) for the %s the object reports through its getter at this moment "
+                "(in-place edit of the getter-returned array)" % (fam, obs, locname, locname))
+        x0 = x.copy()
+        try:
+            with contextlib.redirect_stdout(io.StringIO()):
+                if obs == "logpdf":
+                    got = _num(dist.logpdf(x))
+                    ok = abs(exp - got) <= tol * max(1, abs(exp))
+                    expv = exp
+                elif obs == "pdf":
+                    got = _num(dist.pdf(x))
+                    expv = math.exp(exp)
+                    ok = abs(got - expv) <= 1e-9 * max(1e-300, expv)
+                else:
+                    got = np.asarray(dist.gradient(x), dtype=float).ravel()
+                    expv = _live_expected_grad(fam, E, D)
+                    ok = got.shape == expv.shape and np.allclose(got, expv, rtol=1e-9, atol=1e-9 * max(1.0, np.abs(expv).max()))
+        except Exception as e:
+            ctx.mismatch(sig + "/raises", carry, "%s raises after a public operation on the %s: %r" % (obs, locname, e), exp, repr(e))
+            return False
+        if not ok:
+            ctx.mismatch(sig, carry, what, expv, got)
+        if not np.array_equal(x, x0):
+            ctx.mismatch(sig + "/argument_mutated", carry, "%s modified the array it was called with" % obs, x0, x)
+    return True
+
+
+def run_live(ctx, chosen_wm):
+    """part `Live` of specs/DiffOpsLive.tla"""
+    import os, random
+    from cuqiverif import tlc as _tlc
+    from cuqiverif.core import MachineryError
+    wd = lambda label: os.path.join(_tlc.WORK, "DiffOpsLive-%s-%d" % (label, os.getpid()))
+    res = ctx.tlc("DiffOpsLive", cfg="DiffOpsLive.cfg.%s.cfg" % ctx.tier, workers=4, timeout=1500, extra_modules=LIVE_MODS, workdir=wd("cfg"))
+    ctx.model_must_hold(res, "DiffOpsLive/cfg")
+    cases = [c for c in res.cases if c.get("kind") == "livecfg"]
+    tags = [c for c in res.cases if c.get("kind") == "livetags"]
+    _tlc.cleanup(res)
+    res = ctx.tlc("DiffOpsLive", cfg="DiffOpsLive.walks.%s.cfg" % ctx.tier, workers=4, timeout=900, extra_modules=LIVE_MODS, workdir=wd("walks"))
+    ctx.model_must_hold(res, "DiffOpsLive/walks")
+    walks = {live_walk_tag(c["ops"]): c["ops"] for c in res.cases if c.get("kind") == "livewalk"}
+    _tlc.cleanup(res)
+    dev = ctx.tlc("DiffOpsLive", cfg="DiffOpsLive.dev_keeps_derived.cfg", workers=2, timeout=900, extra_modules=LIVE_MODS,
+                  expect_violation=True, workdir=wd("dev"))
+    _tlc.cleanup(dev)
+    if dev.violated != "LvReportedIsUsed":
+        raise MachineryError("deviation DevKeepsDerived was not refuted (got %r): LvReportedIsUsed is vacuous" % dev.violated)
+    ctx.observations.setdefault("deviation_runs", {})["DiffOpsLive.dev_keeps_derived.cfg"] = "DevKeepsDerived -> LvReportedIsUsed"
+    # an "argbuf" edit that the object does not see is the SAME real operation: its twin behaviours are branches taken at run time
+    walks = {t: w for t, w in walks.items() if "argbuf-noalias" not in t}
+    if not cases or not tags or not walks:
+        raise MachineryError("DiffOpsLive emitted nothing (%d configurations, %d behaviours)" % (len(cases), len(walks)))
+    canon = [walks[t] for t in _LIVE_CANON if t in walks]
+    if len(canon) != len(_LIVE_CANON):
+        raise MachineryError("DiffOpsLive: canonical behaviours missing among the emitted ones")
+    order = sorted(walks)
+    random.Random(ctx.seed).shuffle(order)
+    per_real = 6 if ctx.tier == "quick" else 24
+    stats, used, k, done, per = {}, set(), 0, 0, {}
+    for c in sorted(cases, key=lambda c: (c["fam"], _key(c), c["wm"])):
+        fam = c["fam"]
+        if c["bc"] == "periodic" and chosen_wm.get(_key(c)) != c["wm"]:
+            continue
+        locname = "mean" if fam == "GMRF" else "location"
+        if c["tags"].get(locname) != "Live":
+            continue
+        reals = [(c["bc"], c["order"])] if c["bc"] != "none" else [(b, 0) for b in ("zero", "periodic", "neumann")]
+        for real_bc, real_order in reals:
+            plan = [("ndarray", (1, 2)), ("ndarray", (2, 3)), ("ndarray", (4, 1))]
+            if fam == "GMRF":
+                plan.append(("list", (2, 1)))              # mean : array_like
+            if c["visible"][2][3]:
+                plan.append(("scalar", (3, 4)))             # "location : scalar or ndarray"
+            for j, (real, pair) in enumerate(plan):
+                chosen = (canon if j in (0, len(plan) - 1) else []) + [walks[order[(k * per_real + i) % len(order)]] for i in range(per_real)]
+                k += 1
+                for ops in chosen:
+                    if live_walk(ctx, c, ops, real, pair, real_bc, real_order, stats):
+                        done += 1
+                        used.add(live_walk_tag(ops))
+                        per[fam] = per.get(fam, 0) + 1
+    missing = [f for f in ("GMRF", "LMRF", "CMRF") if not per.get(f) or not stats.get("edit_reported:" + f)]
+    if missing:
+        # (also: a parameter tagged Live in the spec whose getter-returned array is not the one the object reads - the edits are
+        # then not reported by the getter, the object is consistent with what it reports, and nothing was exercised)
+        raise MachineryError("Live part vacuous: no behaviour driven / no in-place edit reported by the getter for %r (%r)" % (missing, stats))
+    ctx.observations["live"] = {"behaviours_replayed": done, "behaviours_emitted": len(walks), "behaviours_used": len(used),
+                                "per_family": per, "edits": stats, "tags": tags[0]["tags"]}
+    if ctx.tier == "thorough" and len(used) < len(walks) // 2:
+        raise MachineryError("Live part: only %d of %d emitted behaviours were replayed" % (len(used), len(walks)))
+    return done
+
+
 def run_config(ctx, variants):
     """variants: the TLC cases of one (pd, n, bc, order) (one per wrap multiplicity)."""
     c = variants[0]
@@ -463,6 +671,7 @@ def run(ctx):
         if ch is not None:
             chosen_wm[k] = ch["wm"]
     nre = run_reassign(ctx, chosen_wm)
+    nre += run_live(ctx, chosen_wm)
     ctx.sample({"case": {k: groups[sorted(groups)[3]][0][k] for k in ("pd", "n", "bc", "order", "wm", "D", "P", "rank")}})
     ctx.sample({"case": {k: groups[sorted(groups)[-1]][0][k] for k in ("pd", "n", "bc", "order", "wm", "rank", "nullbasis")}})
     ctx.rule = ("one case per (physical dim, n, boundary condition, order) emitted by TLC from DiffOps.tla with exact integer "
@@ -478,6 +687,8 @@ def replay(ctx, case):
         return run(ctx)
     if case.get("kind") == "reassign":
         return reassign_case(ctx, case, set())
+    if case.get("kind") == "livewalk":
+        return live_walk(ctx, case["case"], case["ops"], case["real"], tuple(case["pair"]), case["real_bc"], case["real_order"], {})
     # re-emit this configuration's variants from TLC to stay spec-driven
     res = ctx.tlc("DiffOps", cfg="DiffOps.thorough.cfg", workers=16, timeout=1500)
     variants = [c for c in res.cases if _key(c) == _key(case) or (c["pd"], c["n"]) == (case["pd"], case["n"]) and c["bc"] == "none" and case["order"] == 0 and c["order"] == 1]
